@@ -399,8 +399,8 @@ theorem inner_cont (f : Nat) : ∀ (s : StreamSt) (fr : List Bytes) (s2 : Stream
           · rename_i hge
             split at h
             · obtain ⟨h1, h2⟩ := ih _ _ _ _ h
-              have ht := tlLen_pos typ
-              have hl := tlLen_pos len
+              have ht := decTL_rest_lt hd
+              have hl := decTL_rest_lt hd2
               simp only [StreamSt.recvOff, List.length_drop] at h1 h2 ⊢
               exact ⟨by omega, by intro hf; apply h2; omega⟩
             · cases h
